@@ -247,6 +247,10 @@ def _layer_a(r, case):
     from copulas.multivariate.tree import get_tree
     from mc.checks import c16
     _, d, s0, vt, tier = case
+    if not c16.layer_a_interface_ok():
+        r.hit('layerA')
+        r['sample'] = {'kind': 'layer-A structures', 'note': 'internal interface unavailable'}
+        return r
     c16.install_memo()
     U = c16.make_U(d)
     pairs = list(itertools.combinations(range(d), 2))
